@@ -851,3 +851,214 @@ Section ClientTamper.
     injection Hsub as E. exists g. split; [exact Hg|now symmetry].
   Qed.
 End ClientTamper.
+
+(* ================================================================ E. key sources: cookies of another handler *)
+Lemma in_blobs w t : In (Bl t) w -> In t (blobs w).
+Proof.
+  induction w as [|[c|t'] r IH]; cbn; [auto| |].
+  - intros [H|H]; [discriminate|auto].
+  - intros [H|H]; [inversion H; auto|auto].
+Qed.
+
+Lemma derivable_mono (K K' : term -> Prop) t :
+  (forall x, K' x -> derivable K x) -> derivable K' t -> derivable K t.
+Proof.
+  intros HK H. induction H; eauto using derivable.
+Qed.
+
+Lemma wd_extend (K K' : term -> Prop) w :
+  (forall x, K' x -> derivable K x) -> wire_derivable K' w -> wire_derivable K w.
+Proof. intros HK Hw t Ht. eapply derivable_mono; [exact HK|]. now apply Hw. Qed.
+
+(* no key of h1 is a key of h2 *)
+Definition keys_disjoint (h1 h2 : handler) : Prop := forall k, handler_key h1 k -> ~ handler_key h2 k.
+
+(* the four protection modes CookieHandler.__init__ can produce with at least one key *)
+Definition four_modes (h : handler) : Prop :=
+  (exists ks, h = mk_handler (Some ks) None None) \/ (exists ks ke, h = mk_handler (Some ks) (Some ke) None) \/
+  (exists ke, h = mk_handler None (Some ke) None) \/ (exists kc, h = mk_handler None None (Some kc)).
+
+(* what the issuing handler's own keys are to the receiving handler: keys like any other it does not own, i.e.
+   every cryptographic value inside a cookie of h1 is something an adversary of h2 can compute *)
+Lemma foreign_blobs_derivable h1 h2 G g t :
+  keys_disjoint h1 h2 -> In t (blobs (g_wire h1 g)) -> derivable (knowledge h2 G) t.
+Proof.
+  intros Hd Hin.
+  assert (HK : forall k, handler_key h1 k -> derivable (knowledge h2 G) (Key k)).
+  { intros k Hk. apply d_init. right. exists k. split; [reflexivity|now apply Hd]. }
+  unfold g_wire, sign_enc_payload in Hin.
+  destruct h1 as [[sk|] [ek|] [ck|]]; cbn [h_sk h_ek h_ck option_map] in Hin;
+    repeat (rewrite ?blobs_app, ?blobs_chs in Hin; cbn [blobs app] in Hin); cbn [In] in Hin;
+    repeat match goal with H : _ \/ _ |- _ => destruct H as [H|H] | H : False |- _ => destruct H end; try subst t;
+    unfold mac_of;
+    repeat first [apply d_atom | apply d_pair | apply d_mac | apply d_enc
+                 | apply HK; unfold handler_key; cbn [h_sk h_ek h_ck]; auto].
+Qed.
+
+Lemma foreign_wire_derivable h1 h2 G g :
+  keys_disjoint h1 h2 -> wire_derivable (knowledge h2 G) (g_wire h1 g).
+Proof. intros Hd t Ht. apply (foreign_blobs_derivable h1 h2 G g t Hd). apply in_blobs, Ht. Qed.
+
+(* the four tamper-evidence theorems as one statement *)
+Lemma tamper_four btxt G h w v typ ts :
+  four_modes h -> (forall g, In g G -> last_is space (g_typ g) = false) ->
+  wire_derivable (knowledge h G) w -> parse_cookie btxt h w = Ok (v, typ, ts) ->
+  exists g, In g G /\ rsplit1 colon (g_payload g) = Some (v, typ) /\ g_ts g = ts.
+Proof.
+  intros [(ks & ->)|[(ks & ke & ->)|[(ke & ->)|(kc & ->)]]] Hsp Hw Hp.
+  - eapply tamper_signed; eauto.
+  - eapply tamper_signed_encrypted; eauto.
+  - eapply tamper_encrypted; eauto.
+  - eapply tamper_encrypter; eauto.
+Qed.
+
+(* a handler refuses every cookie made by a handler it shares no key with, in every mode on both sides *)
+Lemma foreign_refused btxt h1 h2 g :
+  four_modes h2 -> keys_disjoint h1 h2 -> is_ok (parse_cookie btxt h2 (g_wire h1 g)) = false.
+Proof.
+  intros Hm Hd. destruct (parse_cookie btxt h2 (g_wire h1 g)) as [[[v typ] ts]|e|] eqn:Hp; try reflexivity.
+  exfalso. apply (tamper_four btxt [] h2 _ v typ ts Hm) in Hp as (g' & [] & _).
+  - intros g' [].
+  - now apply foreign_wire_derivable.
+Qed.
+
+(* ... and whatever an adversary assembles from the cookies G2 this handler issued, from ANY number of cookies of
+   handlers it shares no key with, and from every key it does not own: accepted => content of a cookie in G2 *)
+Definition with_foreign (h2 : handler) (G2 : list genuine) (F : list (handler * genuine)) (t : term) : Prop :=
+  knowledge h2 G2 t \/ exists f, In f F /\ In t (blobs (g_wire (fst f) (snd f))).
+
+Lemma foreign_mix btxt h2 G2 F w v typ ts :
+  four_modes h2 -> (forall g, In g G2 -> last_is space (g_typ g) = false) ->
+  (forall f, In f F -> keys_disjoint (fst f) h2) ->
+  wire_derivable (with_foreign h2 G2 F) w -> parse_cookie btxt h2 w = Ok (v, typ, ts) ->
+  exists g, In g G2 /\ rsplit1 colon (g_payload g) = Some (v, typ) /\ g_ts g = ts.
+Proof.
+  intros Hm Hsp HF Hw. apply tamper_four; [exact Hm|exact Hsp|].
+  eapply wd_extend; [|exact Hw]. intros x [Hx|(f & Hf & Hin)].
+  - now apply d_init.
+  - eapply foreign_blobs_derivable; [apply HF; exact Hf|exact Hin].
+Qed.
+
+(* ---- generated keys: draws from the supply ---- *)
+Definition draws_distinct (sup : nat -> nat) : Prop := forall d d', d <> d' -> sup d <> sup d'.
+Definition is_gen (s : option ksrc) : Prop := s = None \/ s = Some KGen.
+Definition all_gen (s : hspec) : Prop := is_gen (s_sk s) /\ is_gen (s_ek s) /\ is_gen (s_ck s).
+Definition is_given (s : option ksrc) : Prop := s = None \/ exists k, s = Some (KGiven k).
+Definition all_given (s : hspec) : Prop := is_given (s_sk s) /\ is_given (s_ek s) /\ is_given (s_ck s).
+
+Definition ndraw (s : option ksrc) : nat := match s with Some KGen => 1 | _ => 0 end.
+Definition ndraws (s : hspec) : nat := (ndraw (s_sk s) + ndraw (s_ek s) + ndraw (s_ck s))%nat.
+Fixpoint next (l : list bstep) (n : nat) : nat :=
+  match l with
+  | [] => n
+  | BHandler s :: r => next r (n + ndraws s)
+  | BOther m :: r => next r (n + m)
+  end.
+
+Section Fresh.
+  Variable sup : nat -> nat.
+
+  Lemma take_snd s n : snd (take sup s n) = (n + ndraw s)%nat.
+  Proof. destruct s as [[k|]|]; cbn; lia. Qed.
+  Lemma take_gen s n k : is_gen s -> fst (take sup s n) = Some k -> k = sup n /\ ndraw s = 1%nat.
+  Proof.
+    intros [->| ->]; cbn; [discriminate|]. intro H; inversion H. auto.
+  Qed.
+  Lemma take_given s n n' : is_given s -> take sup s n = (fst (take sup s n'), n).
+  Proof. intros [->|(k & ->)]; reflexivity. Qed.
+
+  Lemma construct_snd s n : snd (construct sup s n) = (n + ndraws s)%nat.
+  Proof.
+    unfold construct, ndraws.
+    pose proof (take_snd (s_sk s) n) as H1. destruct (take sup (s_sk s) n) as [sk n1]. cbn [snd] in H1.
+    pose proof (take_snd (s_ek s) n1) as H2. destruct (take sup (s_ek s) n1) as [ek n2]. cbn [snd] in H2.
+    pose proof (take_snd (s_ck s) n2) as H3. destruct (take sup (s_ck s) n2) as [ck n3]. cbn [snd] in H3.
+    cbn [snd]. lia.
+  Qed.
+
+  (* every key of a handler whose keys are all generated is one of the draws made during its construction *)
+  Lemma construct_keys s n k :
+    all_gen s -> handler_key (fst (construct sup s n)) k ->
+    exists d, (n <= d < snd (construct sup s n))%nat /\ k = sup d.
+  Proof.
+    intros (G1 & G2 & G3). rewrite construct_snd. unfold construct, ndraws.
+    pose proof (take_snd (s_sk s) n) as H1. pose proof (take_gen (s_sk s) n) as T1.
+    destruct (take sup (s_sk s) n) as [sk n1]. cbn [fst snd] in H1, T1.
+    pose proof (take_snd (s_ek s) n1) as H2. pose proof (take_gen (s_ek s) n1) as T2.
+    destruct (take sup (s_ek s) n1) as [ek n2]. cbn [fst snd] in H2, T2.
+    pose proof (take_snd (s_ck s) n2) as H3. pose proof (take_gen (s_ck s) n2) as T3.
+    destruct (take sup (s_ck s) n2) as [ck n3]. cbn [fst snd] in H3, T3.
+    cbn [fst]. unfold handler_key. cbn [h_sk h_ek h_ck].
+    intros [E|[E|E]].
+    - destruct (T1 k G1 E) as [-> ?]. exists n. split; [lia|reflexivity].
+    - destruct (T2 k G2 E) as [-> ?]. exists n1. split; [lia|reflexivity].
+    - destruct (T3 k G3 E) as [-> ?]. exists n2. split; [lia|reflexivity].
+  Qed.
+
+  (* two handlers with generated keys, the second built after the first (anything may draw in between): under the
+     freshness hypothesis they share no key *)
+  Lemma generated_disjoint s1 s2 n n2 :
+    draws_distinct sup -> all_gen s1 -> all_gen s2 -> (snd (construct sup s1 n) <= n2)%nat ->
+    let h1 := fst (construct sup s1 n) in let h2 := fst (construct sup s2 n2) in
+    keys_disjoint h1 h2 /\ keys_disjoint h2 h1.
+  Proof.
+    intros Hf G1 G2 Hle h1 h2.
+    assert (forall k, handler_key h1 k -> handler_key h2 k -> False) as H.
+    { intros k K1 K2. apply (construct_keys s1 n k G1) in K1 as (d1 & R1 & E1).
+      apply (construct_keys s2 n2 k G2) in K2 as (d2 & R2 & E2).
+      apply (Hf d1 d2); [lia|congruence]. }
+    split; intros k K1 K2; eapply H; eauto.
+  Qed.
+
+  (* histories *)
+  Lemma build_all_app l1 l2 n : build_all sup (l1 ++ l2) n = build_all sup l1 n ++ build_all sup l2 (next l1 n).
+  Proof.
+    revert n; induction l1 as [|[s|m] r IH]; intro n; cbn [app build_all next]; [reflexivity| |apply IH].
+    pose proof (construct_snd s n) as Hs. destruct (construct sup s n) as [h n']. cbn [snd] in Hs. subst n'.
+    now rewrite IH.
+  Qed.
+  Lemma build_all_cons s r n :
+    build_all sup (BHandler s :: r) n = fst (construct sup s n) :: build_all sup r (n + ndraws s).
+  Proof.
+    cbn [build_all]. pose proof (construct_snd s n) as Hs. destruct (construct sup s n) as [h n']. cbn [snd fst] in *. now subst.
+  Qed.
+  Lemma next_le l n : (n <= next l n)%nat.
+  Proof. revert n; induction l as [|[s|m] r IH]; intro n; cbn [next]; [lia| |]; (etransitivity; [|apply IH]); lia. Qed.
+  Lemma next_app l1 l2 n : next (l1 ++ l2) n = next l2 (next l1 n).
+  Proof. revert n; induction l1 as [|[s|m] r IH]; intro n; cbn [app next]; auto. Qed.
+
+  (* any two handlers of one history whose keys are all generated *)
+  Lemma history_independent pre s1 mid s2 post n :
+    draws_distinct sup -> all_gen s1 -> all_gen s2 ->
+    let n1 := next pre n in
+    let n2 := next mid (n1 + ndraws s1) in
+    let h1 := fst (construct sup s1 n1) in
+    let h2 := fst (construct sup s2 n2) in
+    build_all sup (pre ++ BHandler s1 :: mid ++ BHandler s2 :: post) n
+      = build_all sup pre n ++ h1 :: build_all sup mid (n1 + ndraws s1) ++ h2 :: build_all sup post (n2 + ndraws s2)
+    /\ keys_disjoint h1 h2 /\ keys_disjoint h2 h1.
+  Proof.
+    intros Hf G1 G2 n1 n2 h1 h2. split.
+    - rewrite build_all_app, build_all_cons, build_all_app, build_all_cons. reflexivity.
+    - apply generated_disjoint; auto. rewrite construct_snd. apply next_le.
+  Qed.
+
+  (* positive control: handlers built from the same given keys are the same handler, whenever they are built *)
+  Lemma given_same s n n' : all_given s -> fst (construct sup s n) = fst (construct sup s n').
+  Proof.
+    intros (G1 & G2 & G3). unfold construct.
+    rewrite (take_given (s_sk s) n n' G1).
+    destruct G1 as [E1|(k1 & E1)], G2 as [E2|(k2 & E2)], G3 as [E3|(k3 & E3)]; rewrite E1, E2, E3; reflexivity.
+  Qed.
+End Fresh.
+
+(* the theorem of this section: independently built handlers refuse each other's cookies *)
+Lemma independent_refuse btxt sup s1 s2 n n2 g :
+  draws_distinct sup -> all_gen s1 -> all_gen s2 -> (snd (construct sup s1 n) <= n2)%nat ->
+  let h1 := fst (construct sup s1 n) in let h2 := fst (construct sup s2 n2) in
+  (four_modes h2 -> is_ok (parse_cookie btxt h2 (g_wire h1 g)) = false) /\
+  (four_modes h1 -> is_ok (parse_cookie btxt h1 (g_wire h2 g)) = false).
+Proof.
+  intros Hf G1 G2 Hle h1 h2. destruct (generated_disjoint sup s1 s2 n n2 Hf G1 G2 Hle) as [D1 D2].
+  split; intro Hm; now apply foreign_refused.
+Qed.
